@@ -121,11 +121,13 @@ TRANSFORMS = {
 
 def add_tagged_values(rng, root):
   """Puts filled and unfilled TaggedValues into containers."""
+  def tv():
+    return rng.choice(l2.TAGS).new(rng.randint(50, 60)) if rng.random() < 0.75 else rng.choice(l2.TAGS).new()
   for x in c02.reachable(root):
     if isinstance(x, list) and rng.random() < 0.3:
-      x.append(rng.choice(l2.TAGS).new(rng.randint(50, 60)))
+      x.append(tv())
     elif isinstance(x, dict) and rng.random() < 0.3:
-      x["tv"] = rng.choice(l2.TAGS).new(rng.randint(50, 60))
+      x["tv"] = tv()
 
 
 def one_case(rng, res, intern, stream, root, name, label):
@@ -165,7 +167,7 @@ def one_case(rng, res, intern, stream, root, name, label):
       problems.append(f"== after {name} raised {type(e).__name__}")
   if name == "materialize_defaults":
     for b in c02.reachable(out):
-      if isinstance(b, config_lib.Buildable):
+      if isinstance(b, config_lib.Buildable) and not isinstance(b, config_lib.TaggedValueCls):
         for idx, (pname, kind, has, _) in enumerate(l2.sig_params(b.__fn_or_cls__)):
           if not has or kind in ("VarPos", "VarKw"):
             continue
@@ -399,7 +401,7 @@ def run(tier: str, seed: int) -> Result:
     if not c06.no_int_floats(root):
       continue    # 3.0 == 3 in Python; the model's leaf equality does not relate ints and floats
     name = rng.choice(names)
-    if name == "materialize_tags":
+    if name == "materialize_tags" or rng.random() < 0.25:
       add_tagged_values(rng, root)
     # make some arguments explicitly equal to their defaults (so that trimming has work to do)
     for b in c02.reachable(root):
